@@ -21,10 +21,18 @@ def targets():
 
 def regen(repo):
     env = dict(os.environ, VERIF_REPO=repo)
-    return sh('python3 -c "import sys; sys.path.insert(0, %r); from vlib import core; r = core.regen(); print(r[\'ok\'], r[\'error\'], r[\'changed\'])"' % HERE, env=env, cwd=HERE)
+    return sh('python3 -c "import sys, json; sys.path.insert(0, %r); from vlib import core; r = core.regen(); print(json.dumps(r[\'hashes\'], sort_keys=True)); print(r[\'ok\'], r[\'error\'], r[\'changed\'])"' % HERE, env=env, cwd=HERE)
+
+def hashes(g):
+    """the content hashes of the generated files, as printed by regen() on the line before the status line"""
+    ls = g.stdout.strip().split('\n')
+    try: return json.loads(ls[-2])
+    except Exception: return None
 
 T = targets()
 bad = 0
+BASE = hashes(regen('/repo'))     # the model of the unchanged source: `identical-model` means "same text as this", whatever
+                                  # rewrite happened to be on disk from the previous iteration
 for hid in ids:
     wt = '/tmp/mx/rb-%s-%s' % (os.path.basename(HERE), hid)
     sh('git -C /repo worktree remove --force ' + wt); shutil.rmtree(wt, ignore_errors=True); os.makedirs('/tmp/mx', exist_ok=True)
@@ -35,7 +43,7 @@ for hid in ids:
         line = g.stdout.strip().split('\n')[-1] if g.stdout.strip() else g.stderr[-300:]
         if not line.startswith('True'):
             print(hid, 'TRANSLATOR', line[:300], flush=True); bad += 1; continue
-        if line.endswith('[]'):
+        if (hashes(g) == BASE) if BASE is not None else line.endswith('[]'):
             print(hid, 'identical-model', flush=True); continue
         p = sh('lake build ' + ' '.join(T), cwd=os.path.join(HERE, 'lean'), timeout=3600)
         if p.returncode == 0: print(hid, 'proofs-ok', line[:120], flush=True)
